@@ -25,7 +25,9 @@ def run(ctx):
         rule=("round_pow2: every i in 1..2^(w-1) at w=8,16 (w=32: boundaries 2^k+-2 and log-uniform random; thorough: all 2^31), "
               "w=64 boundaries+random; non-trivial = i not a power of two.  ipow: all 2^16 pairs at w=8 (two oracles), all b x 64 e "
               "and all e x 64 b at w=16, edge x edge and random at w=32,64; non-trivial = b>=2 and e>=2.  Sizing: every extent vector "
-              "in 1..B_N (quick 64/12/6/4, thorough 256/24/10/6; Hilbert 20^2 / 40^2) converted strided->curve; non-trivial = not a "
+              "in 1..B_N (quick 64/12/6/4, thorough 256/24/10/6; Hilbert 20^2 / 40^2) converted strided->curve; the same over storage whose ARRAY INDEX TYPE is 8/16/32 bits wide with extents whose padded curve "
+              "fills that type's whole range (cell count 2^bits, largest position 2^bits-1): reported storage, every cell of the converted "
+              "field, of a copy and of a dumped+reloaded copy; non-trivial = not a "
               "power-of-two cube.  distinct = hash of (function, width, arguments)."),
         assumptions=["round_pow2 is only called with 1 <= i <= 2^(w-1): beyond that it does not terminate (j wraps to 0); the property excludes it",
                      "oracles: bit counting for rounding; left-to-right modular exponentiation in unsigned __int128 and repeated multiplication at 8 bits",
